@@ -107,6 +107,11 @@ func parseRoute(node *treeNode, path string, method string, info *RouteInfo) (pa
 //	`/`         will be matched by `/` first and then `/:param` or `/*`
 func findRoute(node *treeNode, path string, method string, params *Params) (info *RouteInfo) {
 	var length, left, right int = len(path), 0, 0
+	if length == 0 || path[0] != '/' {
+		// only a rooted path can be walked: net/http passes "" for CONNECT and
+		// absolute-form targets and "*" for `OPTIONS *`
+		return nil
+	}
 	if length == 1 {
 		if n := node.methodNodeOrNil(method); n != nil {
 			// if `/` is matched by `/`, skip `/:param` and `/*`
